@@ -303,6 +303,51 @@ def consts(src: str) -> tuple[bool, dict]:
     return ok, vals
 
 
+def signatures(src: str) -> dict:
+    """Call interface of the three public methods that take arguments: parameter names (the keyword interface) and the
+    defaults a bare call uses.  Anything not recognised is None (fail closed: `c09_call_defaults` then fails)."""
+    out = {"tick_cost": None, "renew_amount": None, "renew_reset": None, "names": None}
+    try:
+        tree = ast.parse(src)
+        cls = [n for n in tree.body if isinstance(n, ast.ClassDef) and n.name == CLASS]
+        if len(cls) != 1:
+            return out
+        fns = {}
+        for n in cls[0].body:
+            if isinstance(n, ast.FunctionDef):
+                fns.setdefault(n.name, []).append(n)
+        names = []
+        for m in ("tick", "renew", "trigger_apoptosis"):
+            if len(fns.get(m, [])) != 1:
+                return out
+            a = fns[m][0].args
+            if a.vararg or a.kwarg or a.kwonlyargs or a.posonlyargs or fns[m][0].decorator_list:
+                return out
+            ps = [x.arg for x in a.args[1:]]
+            if len(a.defaults) != len(ps):        # every parameter after self has a default
+                return out
+            names.append((m, ps, a.defaults))
+        out["names"] = [(m, ps) for m, ps, _ in names]
+        d = {m: dict(zip(ps, df)) for m, ps, df in names}
+
+        def lit(n):
+            return n.value if isinstance(n, ast.Constant) else Ellipsis
+        c = lit(d["tick"].get("cost", ast.Name(id="?")))
+        if isinstance(c, int) and not isinstance(c, bool) and c >= 0:
+            out["tick_cost"] = c
+        am = lit(d["renew"].get("amount", ast.Name(id="?")))
+        if am is None:
+            out["renew_amount"] = "none"
+        elif isinstance(am, int) and not isinstance(am, bool) and am >= 0:
+            out["renew_amount"] = f"(some {am})"
+        r = lit(d["renew"].get("reset_errors", ast.Name(id="?")))
+        if isinstance(r, bool):
+            out["renew_reset"] = r
+    except Exception:   # noqa - fail closed
+        return {"tick_cost": None, "renew_amount": None, "renew_reset": None, "names": None}
+    return out
+
+
 # --------------------------------------------------------------------------------------------------------
 def render_locks(sh: Shape) -> str:
     order = sh.ordered() if sh.methods else []
@@ -329,7 +374,7 @@ def render_locks(sh: Shape) -> str:
         + ",\n".join(rows) + "\n]\n\nend Operon.Gen.TelomereLocks\n")
 
 
-def render_consts(ok: bool, vals: dict) -> str:
+def render_consts(ok: bool, vals: dict, sig: dict = None) -> str:
     def nd(c):
         v = vals.get(c)
         return (v.numerator, v.denominator) if v is not None else (0, 0)
@@ -340,6 +385,17 @@ def render_consts(ok: bool, vals: dict) -> str:
     for c, nm in zip(CONSTS, ["senescence", "warning", "errorRate"]):
         n, d = nd(c)
         s += f"/-- {c} -/\ndef {nm}Num : Nat := {n}\ndef {nm}Den : Nat := {d}\n\n"
+    sig = sig or {"tick_cost": None, "renew_amount": None, "renew_reset": None, "names": None}
+    tc, ra, rr, nm = sig["tick_cost"], sig["renew_amount"], sig["renew_reset"], sig["names"]
+    s += ("/-- what a bare `tick()` costs (default of its parameter), `none` = not a natural-number literal -/\n"
+          f"def tickDefaultCost : Option Nat := {'none' if tc is None else f'some {tc}'}\n\n"
+          "/-- what a bare `renew()` passes: amount (`some none` = None) and reset_errors -/\n"
+          f"def renewDefaultAmount : Option (Option Nat) := {'none' if ra is None else f'some {ra}'}\n"
+          f"def renewDefaultReset : Option Bool := {'none' if rr is None else ('some true' if rr else 'some false')}\n\n"
+          "/-- keyword interface: parameter names of the public methods that take arguments ([] = not recognised) -/\n"
+          "def paramNames : List (String × List String) := ["
+          + ("" if nm is None else ", ".join('("%s", [%s])' % (m, ", ".join(f'"{p}"' for p in ps)) for m, ps in nm))
+          + "]\n\n")
     return s + "end Operon.Gen.TelomereConsts\n"
 
 
@@ -349,16 +405,30 @@ def run(repo: Path, lean_dir: Path, write_if_changed) -> list[dict]:
         src = p.read_text()
     except OSError:
         src = ""
-    sh = Shape(src)
-    if sh.methods:
-        sh.ordered()            # may flag recursion before rendering
-    ok, vals = consts(src)
-    c1 = write_if_changed(Path(lean_dir) / "Operon/Gen/TelomereLocks.lean", render_locks(sh))
-    c2 = write_if_changed(Path(lean_dir) / "Operon/Gen/TelomereConsts.lean", render_consts(ok, vals))
+    try:
+        sh = Shape(src)
+        if sh.methods:
+            sh.ordered()            # may flag recursion before rendering
+        locks = render_locks(sh)
+    except RecursionError:
+        raise
+    except Exception as e:   # noqa - FAIL CLOSED on a shape the analysis does not know: never crash the run
+        sh = Shape("")
+        sh.ok = False
+        sh.why = [f"analysis failed ({type(e).__name__}: {str(e)[:100]})"]
+        locks = render_locks(sh)
+    try:
+        ok, vals = consts(src)
+    except Exception:   # noqa
+        ok, vals = False, {}
+    sig = signatures(src)
+    c1 = write_if_changed(Path(lean_dir) / "Operon/Gen/TelomereLocks.lean", locks)
+    c2 = write_if_changed(Path(lean_dir) / "Operon/Gen/TelomereConsts.lean", render_consts(ok, vals, sig))
     return [{"id": "E3-telomere", "facts_changed": bool(c1), "recognised": sh.ok, "lock_kind": sh.lock_kind,
              "why": sh.why[:5]},
             {"id": "E5-telomere", "facts_changed": bool(c2), "known": ok,
-             "values": {k: (str(v) if v is not None else None) for k, v in vals.items()}}]
+             "values": {k: (str(v) if v is not None else None) for k, v in vals.items()},
+             "call_defaults": {k: (v if k != "names" else [list(x) for x in (v or [])]) for k, v in sig.items()}}]
 
 
 if __name__ == "__main__":
@@ -367,4 +437,4 @@ if __name__ == "__main__":
     src = (root / REL).read_text()
     sh = Shape(src)
     print(render_locks(sh))
-    print(render_consts(*consts(src)))
+    print(render_consts(*consts(src), signatures(src)))
